@@ -12,7 +12,7 @@ LEAN_FILE = 'PncProofs/C17.lean'
 NAMESPACE = 'Props.C17'
 LEAN_CONE = ['PncModel.Interp', 'PncProofs.InterpLemmas', 'PncProofs.SigmaLemmas', 'PncProofs.C17']
 LEMMA_FILES = ['PncProofs/InterpLemmas.lean', 'PncProofs/SigmaLemmas.lean']
-REQUIRED_THEOREMS = ['sum_one', 'nonneg', 'linear_exact', 'linear_exact_inside', 'identity',
+REQUIRED_THEOREMS = ['one_level', 'one_level_apply', 'sum_one', 'nonneg', 'linear_exact', 'linear_exact_inside', 'identity',
                      'sum_one_any', 'nonneg_any', 'cover', 'thickness', 'flux', 'mass', 'const', 'apply_linear', 'apply_const', 'reduced_sum_one', 'reduced_rows_counterexample']
 RULE = ('weights: strictly monotonic sources (ascending and descending, 2..7 nodes, spacings powers of two '
         'so scipy/numpy float arithmetic is exact), dyadic targets at nodes, between nodes and outside both '
@@ -40,7 +40,17 @@ def _src(rng, n):
     return xs
 
 
+def _onelevel_case(rng):
+    """one source level (a surface-only file): the only line through one point is the constant, every target takes it"""
+    x = Fraction(rng.randint(-20, 20), 4)
+    targets = [x] if rng.random() < 0.4 else [x + Fraction(rng.randint(-8, 8), 4) for _ in range(rng.randint(1, 4))]
+    return dict(kind='weights', extrapolate=rng.random() < 0.3, xs=[lib.show_rat(x)], nxs=[lib.show_rat(v) for v in targets],
+                a=0, b=rng.randint(-5, 5), fillv=None)
+
+
 def _weights_case(rng):
+    if rng.random() < 0.06:
+        return _onelevel_case(rng)
     n = rng.randint(2, 7)
     xs = _src(rng, n)
     targets = []
@@ -161,7 +171,7 @@ def _bpchsigma_case(rng):
                 # between the top reduced level and the next one
                 full=rng.random() < 0.6, fa=rng.randint(1, 9), fb=rng.randint(-5, 5),
                 frac=[rng.randint(1, 15) for _ in range(3)], vgtop=rng.choice([5000., 10000., 1.]),
-                data=[rng.randint(-9, 9) for _ in range(3)], seed=rng.randrange(1 << 30))
+                data=[rng.randint(-9, 9) for _ in range(3)], seed=rng.randrange(1 << 30), warm=rng.random() < 0.5)
 
 
 def gen(rng, tier):
@@ -290,8 +300,19 @@ def impl(case):
                     idx = np.indices(shape)
                     vals = 2.5 + idx[1] * (idx[1] + 1.) + 10. * idx[0] + 100. * idx[2]
                     v[:] = vals
-                    got = np.asarray(interpvars(f, W.copy(), 'z').variables['V'][:])
+                    # an integer-typed variable next to it (counts, class codes): the weighted sum of its values, cut to an
+                    # integer only when it is stored
+                    vi = f.createVariable('N', 'i', tuple('tzx'))
+                    ivals = (vals * 4).astype('i')
+                    vi[:] = ivals
+                    of = interpvars(f, W.copy(), 'z')
+                    got = np.asarray(of.variables['V'][:])
                     want = np.moveaxis(np.tensordot(vals, W.T, axes=(1, 0)), -1, 1)
+                    goti = np.asarray(of.variables['N'][:], dtype='d')
+                    wanti = np.moveaxis(np.tensordot(ivals.astype('d'), W.T, axes=(1, 0)), -1, 1)
+                    if goti.shape == wanti.shape and np.abs(goti - wanti).max() > 1.0 + 1e-6:
+                        res['ivbad'] = 'interpvars on an int32 variable (%d -> %d layers): %s, the weighted sums are %s' % (
+                            n, m, goti.ravel()[:4].tolist(), wanti.ravel()[:4].tolist())
                     if got.shape != want.shape or not np.allclose(got, want, rtol=0, atol=1e-6):
                         res['ivbad'] = 'interpvars with mass-conserving weights (%d -> %d layers): %s' % (
                             n, m, 'shape %s, expected %s' % (got.shape, want.shape) if got.shape != want.shape
@@ -466,6 +487,9 @@ def _bpchsigma(case):
             if case.get('full'):
                 edges.append(zs[nz - 1] + zs[nz] - edges[-1])
             vg = np.array(edges, dtype='d')
+            if case.get('warm'):
+                # the same object was interpolated before, to another grid with the same number of layers
+                f.interpSigma(1.0 - (1.0 - vg) * 0.75, vgtop=case['vgtop'])
             o = f.interpSigma(vg, vgtop=case['vgtop'])
             key = 'IJ-AVG-$_' + blk['name']
             got = np.asarray(o.variables[key][0, :, 0, 0], dtype='d').tolist()
